@@ -799,7 +799,8 @@ pub fn render_file(p: &Pkg, f: usize) -> String {
           .cloned();
         let ext = ext_ref.map(|r| {
           mark(r);
-          cx.name_of(r, true, &mut imports.borrow_mut())
+          // heritage clauses take entity names, not `import("..")` types
+          cx.name_of(r, false, &mut imports.borrow_mut())
         });
         body.push_str(&format!(
           "{}interface {}{}{} {{\n  a: {};\n  readonly b?: {};\n  m(x: {}): {};\n{}  [key: string]: unknown;\n}}\n",
